@@ -17,6 +17,7 @@ mod jsonrt;
 mod serde_rt;
 mod conv;
 mod synctrial;
+mod cli;
 
 use serde_json::Value;
 use std::fs::{File, OpenOptions};
@@ -39,6 +40,7 @@ fn runner(engine: &str) -> Runner {
         "json" => jsonrt::run_case,
         "serde" => serde_rt::run_case,
         "conv" => conv::run_case,
+        "cli" => cli::run_case,
         _ => die(&format!("unknown engine {}", engine)),
     }
 }
